@@ -1,7 +1,7 @@
 (* C22 proofs, part 7: any variant of the checker (in particular the pinned source) agrees with the
    repaired one on kernels that stay away from the five defects. *)
 From Coq Require Import List Bool Arith ZArith Lia.
-From OV.C22 Require Import Model Spec Statements ProofsBase ProofsWalks Proofs.
+From OV.C22 Require Import Model Spec Statements ProofsBase ProofsWalks ProofsNest Proofs.
 Import ListNotations.
 
 (* ------------------------------------------------------------------ headers *)
@@ -156,7 +156,7 @@ Qed.
 
 Lemma kernelIsValid_clean : forall v k, quirk_free k -> kernelIsValid v k = kernelIsValid fixed k.
 Proof.
-  intros v k (Hr & Hc & Hn). unfold kernelIsValid.
+  intros v k (Hr & Hc & Hdp & Hn). unfold kernelIsValid.
   assert (E1 : ret_ok v (k_ret k) = ret_ok fixed (k_ret k)).
   { destruct (k_ret k); try reflexivity. congruence. }
   assert (Hin : forall e, In e (outerLoops (visits k)) \/ In e (innerLoops (visits k)) ->
@@ -168,7 +168,7 @@ Proof.
   { unfold loops_valid.
     rewrite (all_valid_clean v (outerLoops (visits k))) by (intros; apply Hin; now left).
     rewrite (all_valid_clean v (innerLoops (visits k))) by (intros; apply Hin; now right).
-    reflexivity. }
+    rewrite (count_loop_any_variant v k Hdp). reflexivity. }
   rewrite E1, E2, (bc_valid_clean v k Hn). reflexivity.
 Qed.
 
